@@ -121,19 +121,20 @@ class StatResult:
         raise Unsupported(f'stat_result.{name}')
 
 
+DEPTH_fn = z3.Function('path_depth', IntS, IntS)
+
+
 def _register_child(vc, t):
-    """Instantiate injectivity of CHILD between `t` and every CHILD term seen on this path."""
-    reg = vc.ghost.setdefault('__child_terms__', [])
-    for e in reg:
-        if e.eq(t):
-            return
+    """Injectivity of CHILD, stated through its inverses (one axiom per ground term, injectivity follows by
+    congruence):  parent_of(child(p, a)) = p,  name_of(child(p, a)) = a,  depth(child(p, a)) = depth(p) + 1."""
+    reg = vc.ghost.setdefault('__child_terms__', set())
+    i = t.get_id()
+    if i in reg:
+        return
+    reg.add(i)
+    vc.ghost.setdefault('__child_keep__', []).append(t)      # keep the term alive: its id must not be recycled
     p, a = t.children()
-    for e in reg:
-        q, b = e.children()
-        vc.solver.add((e == t) == z3.And(p == q, a == b))
-    # a child is never its own ancestor (finite depth): enough to state it for the direct parent
-    vc.solver.add(t != p)
-    reg.append(t)
+    vc.solver.add(z3.And(PARENT_fn(t) == p, NAME_fn(t) == a, DEPTH_fn(t) == DEPTH_fn(p) + 1))
 
 
 def fs(I):
